@@ -18,8 +18,8 @@
 //   - malformed stream: snapshots no exporter sends (panics, failing registrations) and messages rejected
 //     at protocol level.
 //
-// After every message the whole catalog is dumped; the Lean model (CV.Peer, driver cvd_c17) must reproduce
-// result, command log (sorted), dump and CheckServiceNodes view. Snapshots go to the model in the node
+// After every message the whole catalog is dumped with the CreateIndex / ModifyIndex of every row; the Lean model
+// (CV.Peer + CV.PeerIdx, driver cvd_c17) must reproduce result, command log (sorted), dump and CheckServiceNodes view. Snapshots go to the model in the node
 // order the implementation used (Go map iteration), read off the command log.
 //
 // Exporter -> importer, end to end (runE2ECase, runE2ECorpus). A real subscriptionManager subscribed for the
@@ -121,6 +121,7 @@ func encInsts(is []inst) string {
 type call struct {
 	enc  string // canonical log entry
 	node string // node name of a registration ("" for deregistrations)
+	sid  string // service id of a service registration
 	peer string
 }
 
@@ -159,7 +160,11 @@ func (b *backend) CatalogRegister(req *structs.RegisterRequest) error {
 		sort.Strings(t)
 		ks = strings.Join(t, "+")
 	}
-	b.calls = append(b.calls, call{enc: fmt.Sprintf("r;%s;%s;%s", hx.EncS(req.Node), s, ks), node: req.Node, peer: req.PeerName})
+	sid := ""
+	if req.Service != nil {
+		sid = req.Service.ID
+	}
+	b.calls = append(b.calls, call{enc: fmt.Sprintf("r;%s;%s;%s", hx.EncS(req.Node), s, ks), node: req.Node, sid: sid, peer: req.PeerName})
 	return b.w.apply(structs.RegisterRequestType, req)
 }
 
@@ -264,20 +269,20 @@ func (w *world) rows() (out []row, byPeer map[string][]string) {
 	ns, ss, ks := w.f.State().VerifC17Catalog()
 	byPeer = map[string][]string{}
 	for _, n := range ns {
-		k := fmt.Sprintf("N %s;%s;%s;%s", hx.EncS(n.PeerName), hx.EncS(n.Node), hx.EncS(string(n.ID)), hx.EncS(n.Address))
-		f := fmt.Sprintf("%s @%d/%d dc=%s meta=%v ta=%v", k, n.CreateIndex, n.ModifyIndex, n.Datacenter, n.Meta, n.TaggedAddresses)
+		k := fmt.Sprintf("N %s;%s;%s;%s@%d/%d", hx.EncS(n.PeerName), hx.EncS(n.Node), hx.EncS(string(n.ID)), hx.EncS(n.Address), n.CreateIndex, n.ModifyIndex)
+		f := fmt.Sprintf("%s dc=%s meta=%v ta=%v", k, n.Datacenter, n.Meta, n.TaggedAddresses)
 		out = append(out, row{k, f})
 		byPeer[n.PeerName] = append(byPeer[n.PeerName], f)
 	}
 	for _, s := range ss {
-		k := fmt.Sprintf("S %s;%s;%s;%s;%d", hx.EncS(s.PeerName), hx.EncS(s.Node), hx.EncS(s.ServiceID), hx.EncS(s.ServiceName), s.ServicePort)
-		f := fmt.Sprintf("%s @%d/%d kind=%s tags=%v meta=%v w=%v", k, s.CreateIndex, s.ModifyIndex, s.ServiceKind, s.ServiceTags, s.ServiceMeta, s.ServiceWeights)
+		k := fmt.Sprintf("S %s;%s;%s;%s;%d@%d/%d", hx.EncS(s.PeerName), hx.EncS(s.Node), hx.EncS(s.ServiceID), hx.EncS(s.ServiceName), s.ServicePort, s.CreateIndex, s.ModifyIndex)
+		f := fmt.Sprintf("%s kind=%s tags=%v meta=%v w=%v", k, s.ServiceKind, s.ServiceTags, s.ServiceMeta, s.ServiceWeights)
 		out = append(out, row{k, f})
 		byPeer[s.PeerName] = append(byPeer[s.PeerName], f)
 	}
 	for _, c := range ks {
-		k := fmt.Sprintf("C %s;%s;%s;%s;%s;%s", hx.EncS(c.PeerName), hx.EncS(c.Node), hx.EncS(string(c.CheckID)), hx.EncS(c.ServiceID), hx.EncS(c.ServiceName), hx.EncS(c.Status))
-		f := fmt.Sprintf("%s @%d/%d name=%s out=%s", k, c.CreateIndex, c.ModifyIndex, c.Name, c.Output)
+		k := fmt.Sprintf("C %s;%s;%s;%s;%s;%s@%d/%d", hx.EncS(c.PeerName), hx.EncS(c.Node), hx.EncS(string(c.CheckID)), hx.EncS(c.ServiceID), hx.EncS(c.ServiceName), hx.EncS(c.Status), c.CreateIndex, c.ModifyIndex)
+		f := fmt.Sprintf("%s name=%s out=%s", k, c.Name, c.Output)
 		out = append(out, row{k, f})
 		byPeer[c.PeerName] = append(byPeer[c.PeerName], f)
 	}
@@ -470,25 +475,43 @@ func resLine(r result) string {
 	return fmt.Sprintf("%s log=%s", r.status, encLog(r.calls))
 }
 
-// orderByCalls reorders the instances so that nodes appear in the order the implementation
-// registered them (Go map iteration order); nodes that produced no registration go last.
+// orderByCalls reorders the instances so that nodes, and the services of a node, appear in the order the
+// implementation registered them (Go map iteration order; it decides which Raft index stamps which row); nodes
+// and services that produced no registration go last.
 func orderByCalls(is []inst, cs []call) []inst {
 	rank := map[string]int{}
+	srank := map[string]int{}
 	for _, c := range cs {
 		if c.node != "" {
 			if _, ok := rank[c.node]; !ok {
 				rank[c.node] = len(rank)
 			}
+			if c.sid != "" {
+				if _, ok := srank[c.node+"\x00"+c.sid]; !ok {
+					srank[c.node+"\x00"+c.sid] = len(srank)
+				}
+			}
 		}
 	}
 	out := append([]inst(nil), is...)
-	r := func(i inst) int {
+	r := func(i inst) (int, int) {
+		a, b := 1<<30, 1<<30
 		if v, ok := rank[i.node.name]; ok {
-			return v
+			a = v
 		}
-		return 1 << 30
+		if v, ok := srank[i.node.name+"\x00"+i.svc.sid]; ok {
+			b = v
+		}
+		return a, b
 	}
-	sort.SliceStable(out, func(a, b int) bool { return r(out[a]) < r(out[b]) })
+	sort.SliceStable(out, func(x, y int) bool {
+		ax, bx := r(out[x])
+		ay, by := r(out[y])
+		if ax != ay {
+			return ax < ay
+		}
+		return bx < by
+	})
 	return out
 }
 
@@ -1787,6 +1810,11 @@ func playDedup(run *hx.Run, evs []xev, tag string) {
 		}
 		emit(fmt.Sprintf("xdata %s %d", hx.EncS(e.name), e.h), out)
 		run.Tag("dedup:data-" + out)
+		if sent && !watched[e.name] {
+			// the mechanism of the known finding export:queued-snapshot-sent-after-unexport; its witness with a real
+			// importer behind is runQueuedAfterUnexport — here no importer is attached, so it is only counted
+			run.Tag("dedup:snapshot-sent-for-unwatched-service")
+		}
 		if have, ok := peerHolds[e.name]; watched[e.name] && (!ok || have != e.h) {
 			report(run, "export:exported-service-not-mirrored", fmt.Sprintf("the exporter dropped snapshot %d of exported service %s as a duplicate although the importing side does not hold it (it holds %v)", e.h, e.name, peerHolds), hist)
 		}
@@ -1844,6 +1872,65 @@ func runDedupCase(run *hx.Run, r *hx.RNG) {
 	playDedup(run, evs, "generated")
 }
 
+// runQueuedAfterUnexport: deterministic witness. The watch of a service has queued a snapshot; the list update
+// that un-exports the service is handled first; the queued snapshot is handled next. Real handleEvent on the
+// exporting side, real importer on the other side.
+func runQueuedAfterUnexport(run *hx.Run) {
+	d := peerstream.VerifC17NewDedup()
+	se := newSession(run, true)
+	nonce := 0
+	var script []string
+	forward := func() {
+		for _, evt := range d.Sent {
+			resp, isList, err := peerstream.VerifC17MakeResponse(se.w.mst, evt)
+			if err != nil {
+				panic(err)
+			}
+			nonce++
+			resp.Nonce = fmt.Sprint(nonce)
+			if isList {
+				se.listWith("p1", append([]string(nil), evt.Result.(*pbpeerstream.ExportedServiceList).Services...), resp)
+				continue
+			}
+			var is []inst
+			for _, n := range evt.Result.(*pbservice.IndexedCheckServiceNodes).Nodes {
+				c, _ := pbservice.CheckServiceNodeToStructs(n)
+				is = append(is, inst{node: nodeDef{c.Node.Node, string(c.Node.ID), c.Node.Address}, svc: svcDef{c.Service.ID, c.Service.Service, c.Service.Port}})
+			}
+			se.updWith("p1", resp.ResourceID, is, "queued", resp)
+		}
+		d.Sent = nil
+	}
+	list := func(names ...string) {
+		if _, _, err := d.List(names); err != nil {
+			panic(err)
+		}
+		script = append(script, fmt.Sprintf("# exporter handleEvent: exported-service list %v", names))
+		forward()
+	}
+	data := func(name string, h int) {
+		if _, err := d.Data(name, payloadCSN(name, h)); err != nil {
+			panic(err)
+		}
+		script = append(script, fmt.Sprintf("# exporter handleEvent: snapshot %d of %s", h, name))
+		forward()
+	}
+	list("web")
+	data("web", 1)
+	list()         // web is un-exported: the importer deletes it
+	data("web", 2) // the snapshot the cancelled watch had already queued
+	list()         // the list is read again, unchanged: nothing is sent
+	_, svcs, _ := se.mon.peerState("p1")
+	for _, s := range svcs {
+		report(run, "export:queued-snapshot-sent-after-unexport", fmt.Sprintf("service %s is not exported (exported list: []) but the importer holds instance %s/%s of it: a snapshot queued by the cancelled watch was sent after the list update, and an unchanged list is never sent again", s.sname, s.node, s.sid), append(script, se.hist...))
+	}
+	if len(svcs) == 0 {
+		run.Tag("queued-after-unexport:importer-clean")
+	}
+	run.Tag("corpus:queued-snapshot-after-unexport")
+	run.Case(strings.Join(append(script, se.hist...), "\n"), true)
+}
+
 // ---------------------------------------------------------------- exporter -> importer, end to end
 
 type e2e struct {
@@ -1858,6 +1945,7 @@ type e2e struct {
 	lastList []string // names of the last list forwarded (nil: none yet)
 	gotList  bool
 	deliv    map[string]string // canonical last snapshot forwarded per service since the importer last dropped it
+	late     map[string]bool   // a snapshot of the service was forwarded although the last forwarded list does not name it
 	writes   []string
 	failed   bool
 }
@@ -1950,6 +2038,7 @@ func (x *e2e) forward(evt cache.UpdateEvent) {
 				delete(x.deliv, n) // the importer drops what the list no longer names
 			}
 		}
+		x.late = nil // a list that was really sent makes the importer prune
 		x.run.Tag("e2e:forwarded-list")
 		return
 	}
@@ -1967,6 +2056,13 @@ func (x *e2e) forward(evt cache.UpdateEvent) {
 		is = append(is, it)
 	}
 	name := resp.ResourceID
+	if x.gotList && !contains(x.lastList, name) && len(is) > 0 {
+		if x.late == nil {
+			x.late = map[string]bool{}
+		}
+		x.late[name] = true
+		x.run.Tag("e2e:snapshot-forwarded-for-unlisted-service")
+	}
 	x.se.updWith(e2ePeerOnImporter, name, is, "e2e", resp)
 	x.deliv[name] = canonInsts(is)
 	x.run.Tag("e2e:forwarded-service")
@@ -2069,7 +2165,12 @@ func (x *e2e) mirror() {
 	for _, s := range svcs {
 		if !contains(names, s.sname) && !seen[s.sname] {
 			seen[s.sname] = true
-			report(x.run, "export:unexported-service-still-present", fmt.Sprintf("service %s is not exported to the peer (exported: %v) but the importer still has instances of it", s.sname, names), replay)
+			sig := "export:unexported-service-still-present"
+			if x.late[s.sname] {
+				// mechanism verified: the exporter sent a snapshot of a service its last list did not name, and the importer re-imported it
+				sig = "export:queued-snapshot-sent-after-unexport"
+			}
+			report(x.run, sig, fmt.Sprintf("service %s is not exported to the peer (exported: %v) but the importer still has instances of it", s.sname, names), replay)
 			x.failed = true
 		}
 	}
@@ -2367,17 +2468,46 @@ func runExportCase(run *hx.Run, r *hx.RNG) {
 		run.Tag("export:local-typical-service")
 	}
 	seenR := map[string]bool{}
-	for k := r.Intn(3); k > 0; k-- {
+	var chainTok, tgw []string
+	for k := r.Intn(4); k > 0; k-- {
 		n := hx.Pick(r, names)
 		if seenR[n] {
 			continue
 		}
 		seenR[n] = true
 		e := &structs.ServiceResolverConfigEntry{Kind: structs.ServiceResolver, Name: n}
+		target := n
+		switch r.Intn(5) {
+		case 0: // the chain ends at the consul service
+			target = "consul"
+			run.Tag("export:chain-redirects-to-consul")
+		case 1: // ... or at a service that has no resolver of its own
+			target = "leaf"
+			run.Tag("export:chain-redirects")
+		}
+		if target != n {
+			e.Redirect = &structs.ServiceResolverRedirect{Service: target}
+		}
 		must(e.Normalize())
 		must(s.EnsureConfigEntry(next(), e))
 		chains = append(chains, n)
+		chainTok = append(chainTok, hx.EncS(n)+";"+hx.EncS(target))
 		run.Tag("export:discovery-chain")
+	}
+	if r.Chance(30) { // services behind a terminating gateway are connect services too
+		g := &structs.TerminatingGatewayConfigEntry{Kind: structs.TerminatingGateway, Name: "tgw"}
+		seen := map[string]bool{}
+		for k := 1 + r.Intn(2); k > 0; k-- {
+			n := hx.Pick(r, names[:4])
+			if !seen[n] && n != "consul" {
+				seen[n] = true
+				g.Services = append(g.Services, structs.LinkedService{Name: n})
+				tgw = append(tgw, n)
+			}
+		}
+		must(g.Normalize())
+		must(s.EnsureConfigEntry(next(), g))
+		run.Tag("export:terminating-gateway")
 	}
 	// the exported-services entry
 	type entry struct {
@@ -2448,7 +2578,7 @@ func runExportCase(run *hx.Run, r *hx.RNG) {
 		}
 		sort.Strings(sv)
 		sort.Strings(dc)
-		op := fmt.Sprintf("exp %s %s %s %s %s", hx.EncS(p), hx.EncList(cfgTok), hx.EncSList(typical), hx.EncSList(chains), hx.EncSList(connectEnabled))
+		op := fmt.Sprintf("exp %s %s %s %s %s %s", hx.EncS(p), hx.EncList(cfgTok), hx.EncSList(typical), hx.EncList(chainTok), hx.EncSList(connectEnabled), hx.EncSList(tgw))
 		run.Line(op, fmt.Sprintf("S=%s D=%s", hx.EncList(sv), hx.EncList(dc)))
 		hist = append(hist, op)
 		// monitor: offered only if an entry names the peer as a consumer of it; never "consul";
@@ -2521,6 +2651,7 @@ func main() {
 	playDedup(run, []xev{{list: true, names: []string{"web"}}, {name: "web", h: 1}, {list: true, names: []string{"api"}},
 		{name: "api", h: 2}, {list: true, names: []string{"api", "web"}}, {name: "web", h: 1}, {name: "api", h: 2}}, "corpus:swap-then-re-export-unchanged")
 	runE2ECorpus(run)
+	runQueuedAfterUnexport(run)
 	for i := run.Scale(40, 400); i > 0; i-- {
 		runDedupCase(run, run.RNG.Fork(uint64(1000000+i)))
 	}
